@@ -303,7 +303,11 @@ pub fn random_state_case<T: Sc>(rng: &mut Rng, thorough: bool, idx: usize) -> St
     // one case in sixteen: observations of extreme magnitude (powers of two, so that the scaling is
     // exact): everything is linear in the data, only squares of norms are at risk
     if idx % 16 == 9 {
-        let e: i32 = if T::WIDTH == 32 { *rng.pick(&[-50, 50]) } else { *rng.pick(&[-465, 465, -100, 100]) };
+        // (cycled by index, not drawn: every magnitude class occurs in every run; the outer ones are
+        // beyond the square root of the floating point range, where a norm computed as the root of a
+        // sum of squares overflows / vanishes although every element is an ordinary number)
+        let k = (idx / 16) % 6;
+        let e: i32 = if T::WIDTH == 32 { [-50, 50, -70, 63, -50, 50][k] } else { [-465, 465, -100, 100, -530, 520][k] };
         let f = T::of(2f64.powi(e));
         y = y.map(|v| v * f);
     }
